@@ -74,6 +74,11 @@ pointer_pair_t;
  * compiler instrumentation cannot see it; these make it a scheduling point */
 extern void verif_dcas_before(volatile void* location);
 extern void verif_dcas_after(volatile void* location, int result);
+/* protocol events of the runtime (create / schedule / next / steal / switch /
+ * resumed / destroy); verif_quarantine returns 1 if the checker keeps the
+ * block instead of letting it be freed */
+extern void verif_event(int kind, const volatile void* a, const volatile void* b);
+extern int verif_quarantine(void* block);
 #endif
 
 static inline int compare_and_swap2(volatile pointer_pair_t* location,
